@@ -5,9 +5,12 @@ import (
 	"encoding/json"
 	"fmt"
 	"math/rand"
+	"os"
+	"os/exec"
 	"sort"
 	"strings"
 	"sync"
+	"sync/atomic"
 
 	"github.com/emitter-io/emitter/internal/message"
 	"github.com/emitter-io/emitter/internal/security/hash"
@@ -180,6 +183,151 @@ func mcCfg(mode, size string, maxS int, export bool) string {
 	return fmt.Sprintf("CONSTANTS\n Mode = %q\n Size = %q\n MaxS = %d\n Export = %s\nINIT TrieInit\nNEXT MCNext\nINVARIANTS Refines CountOK PrefixClosed NoOrphans EmptyAgain LookupExact\n", mode, size, maxS, ex)
 }
 
+// ConcurrentChild is the helper process of the concurrency clause:  _triechild <mode> <seed> <rounds> <out>
+// Several goroutines subscribe / unsubscribe / look up on one real trie; call starts and returns are logged with a
+// process-wide sequence number. The Go runtime aborts the process on an unsynchronised map access: the parent reports that.
+func ConcurrentChild(args []string) {
+	mode := args[0]
+	var seed int64
+	var rounds int
+	fmt.Sscan(args[1], &seed)
+	fmt.Sscan(args[2], &rounds)
+	out, err := os.Create(args[3])
+	if err != nil {
+		os.Exit(4)
+	}
+	defer out.Close()
+	filters := [][]string{{"c1", "a"}, {"c1", "a", "b"}, {"c1", "+", "b"}, {"c1", "b"}}
+	if mode == "mqtt" {
+		filters = append(filters, []string{"c1", "a", "#"})
+	}
+	chans := [][]string{{"c1", "a"}, {"c1", "a", "b"}, {"c1", "b", "b"}}
+	type line struct {
+		seq int64
+		b   []byte
+	}
+	var seqNo int64
+	for r := 0; r < rounds; r++ {
+		t := newTrie(mode)
+		var mu sync.Mutex
+		var lines []line
+		logf := func(m map[string]any) {
+			// the sequence number is taken and the line stored under one lock: log order = real-time order
+			mu.Lock()
+			seqNo++
+			lines = append(lines, line{seqNo, core.Ev(m)})
+			mu.Unlock()
+		}
+		logf(map[string]any{"e": "reset"})
+		var wg sync.WaitGroup
+		var nextID int64
+		for g := 0; g < 3; g++ {
+			wg.Add(1)
+			go func(g int) {
+				defer wg.Done()
+				rng := rand.New(rand.NewSource(seed*1000 + int64(r*10+g)))
+				me := &sub{fmt.Sprintf("s%d", g+1)}
+				for i := 0; i < 4; i++ {
+					id := atomic.AddInt64(&nextID, 1)
+					f := filters[rng.Intn(len(filters))]
+					switch rng.Intn(3) {
+					case 0:
+						logf(map[string]any{"e": "call", "id": id, "op": "sub", "f": f, "s": me.id, "ch": []string{}})
+						t.Subscribe(Ssid(f), me)
+						logf(map[string]any{"e": "ret", "id": id})
+					case 1:
+						logf(map[string]any{"e": "call", "id": id, "op": "unsub", "f": f, "s": me.id, "ch": []string{}})
+						t.Unsubscribe(Ssid(f), me)
+						logf(map[string]any{"e": "ret", "id": id})
+					default:
+						ch := chans[rng.Intn(len(chans))]
+						logf(map[string]any{"e": "call", "id": id, "op": "look", "f": []string{}, "s": "", "ch": ch})
+						res := ids(t.Lookup(Ssid(ch), nil))
+						logf(map[string]any{"e": "ret", "id": id, "res": res})
+					}
+				}
+			}(g)
+		}
+		wg.Wait()
+		for _, ln := range lines {
+			out.Write(append(ln.b, '\n'))
+		}
+	}
+	// hammer: unlogged, really parallel callers on one trie. An unsynchronised map access makes the Go runtime abort
+	// the process ("concurrent map read and map write"), which the parent reports; afterwards the index must be empty.
+	t := newTrie(mode)
+	var wg sync.WaitGroup
+	for g := 0; g < 6; g++ {
+		wg.Add(1)
+		go func(g int) {
+			defer wg.Done()
+			rng := rand.New(rand.NewSource(seed + int64(g)))
+			me := &sub{fmt.Sprintf("h%d", g)}
+			for i := 0; i < 30000; i++ {
+				f := filters[rng.Intn(len(filters))]
+				switch rng.Intn(3) {
+				case 0:
+					t.Subscribe(Ssid(f), me)
+				case 1:
+					t.Unsubscribe(Ssid(f), me)
+				default:
+					t.Lookup(Ssid(chans[rng.Intn(len(chans))]), nil)
+				}
+			}
+			for _, f := range filters {
+				t.Unsubscribe(Ssid(f), me)
+			}
+		}(g)
+	}
+	wg.Wait()
+	fmt.Fprintf(out, "{\"e\":\"hammer\",\"count\":%d,\"nodes\":%d}\n", t.Count(), t.VerifNodes())
+}
+
+// concurrent runs the child and validates its log for linearizability.
+func concurrent(c *core.Ctx, mode string, rounds int) {
+	self, _ := os.Executable()
+	f, err := os.CreateTemp("", "vtrie-*.ndjson")
+	if err != nil {
+		core.Fatalf("tempfile: %v", err)
+	}
+	f.Close()
+	defer os.Remove(f.Name())
+	cmd := exec.Command(self, "_triechild", mode, fmt.Sprint(c.Seed), fmt.Sprint(rounds), f.Name())
+	outp, err := cmd.CombinedOutput()
+	if err != nil {
+		msg := string(outp)
+		if strings.Contains(msg, "concurrent map") {
+			c.Violation("concurrent callers of message.Trie ("+mode+"): the Go runtime detected an unsynchronised map access: "+core.Tail(msg, 400), outp)
+			return
+		}
+		core.Fatalf("trie child: %v\n%s", err, core.Tail(msg, 1500))
+	}
+	data, _ := os.ReadFile(f.Name())
+	var traces []*core.Trace
+	var cur *core.Trace
+	for _, ln := range strings.Split(string(data), "\n") {
+		if ln == "" {
+			continue
+		}
+		if strings.Contains(ln, `"e":"hammer"`) {
+			if !strings.Contains(ln, `"count":0,"nodes":1`) {
+				c.Violation("concurrent callers of message.Trie ("+mode+"): after every subscription was removed the index is not empty: "+ln, []byte(ln))
+			}
+			c.Add("hammer_operations", 6*30000)
+			continue
+		}
+		if strings.Contains(ln, `"e":"reset"`) {
+			cur = &core.Trace{Label: fmt.Sprintf("%s-concurrent-%d", mode, len(traces))}
+			traces = append(traces, cur)
+		}
+		cur.Events = append(cur.Events, []byte(ln))
+	}
+	c.Add("concurrent_rounds", int64(len(traces)))
+	cfg := fmt.Sprintf("CONSTANT Mode = %q\nINIT Init\nNEXT Next\nCONSTRAINT MarkC\nPOSTCONDITION AllConsumed\nCHECK_DEADLOCK FALSE\n", mode)
+	rej := c.ValidateTraces(traces, core.ValidateOpts{Module: "Trie_Lin", Cfg: cfg, ChunkSize: 400, DFS: true})
+	c.ReportRejections(rej, "concurrent callers of message.Trie ("+mode+"): no linearization explains the lookups returned")
+}
+
 // Run is the C01 check.
 func Run(c *core.Ctx) {
 	c.Level = "model_checking"
@@ -255,6 +403,12 @@ func Run(c *core.Ctx) {
 		}
 		rej := c.ValidateTraces(traces, core.ValidateOpts{Module: "Trie_Trace", Cfg: traceCfg(mode, false), ChunkSize: 4000})
 		c.ReportRejections(rej, "real message.Trie ("+mode+") disagrees with the C01 matching relation / index bookkeeping")
+		// concurrency clause: 3 goroutines x 4 operations on one trie, many rounds, validated for linearizability
+		rounds := 60
+		if !c.Quick() {
+			rounds = 3000
+		}
+		concurrent(c, mode, rounds)
 	}
 	c.Set("distinct_nontrivial", nontrivial)
 	c.Set("rule", "a replayed walk of the exported TLC state graph is non-trivial when, somewhere in it, one lookup returned a non-empty and another an empty subscriber set; walks are distinct by construction (each covers edges no earlier walk covered)")
